@@ -221,6 +221,18 @@ def handle : List Sx → Sx
     match parseOU a, parseOU b, parseOp op with
     | some a, some b, some op => outSx (unitsRule op a b)
     | _, _, _ => err "rule"
+  | .atom "hist" :: n :: nder :: cur :: new :: .atom target :: b :: op =>
+    -- fresh object (units cur, nder derivatives), n touches of the cached view, set_units(new), then the
+    -- operation on the object or on its .wod
+    match n.toNat?, nder.toNat?, parseOU cur, parseOU new, parseOU b, parseOp op with
+    | some n, some nder, some cur, some new, some b, some op =>
+      let o : Obj := ⟨[⟨1, 0⟩], cur, (List.range nder).map fun _ => ("d", ⟨[⟨1, 0⟩], none⟩), true⟩
+      match (CObj.touches n ⟨o, none⟩).setUnits new with
+      | .error e => rejSx e
+      | .ok c =>
+        let ua := if target == "wod" then c.wod.1.units else c.obj.units
+        outSx (unitsRule op ua b)
+    | _, _, _, _, _, _ => err "hist"
   | [.atom "scale", .atom dir, top, .list ds] =>
     -- into_units / from_units: factor applied to the object and to each derivative
     match parseOU top, ds.mapM parseOU with
